@@ -417,3 +417,134 @@ func findErrorRecorders(p *an.Prog) []*ssa.Function {
 	}
 	return out
 }
+
+// allNodesOf reports whether v denotes every stage of a graph, and returns
+// the graph values it can be: the result of ExecutionGraph.Nodes(), the nodes
+// field itself, or the result of a helper of the package that collects every
+// element of one of those into a slice (a loop over all nodes that appends
+// its element on every iteration).
+func allNodesOf(p *an.Prog, v ssa.Value, depth int) (graphs []ssa.Value, ok bool) {
+	srcs := an.ResolveAll(v)
+	if len(srcs) == 0 {
+		return nil, false
+	}
+	for _, r := range srcs {
+		switch x := r.(type) {
+		case *ssa.Call:
+			if cc, isNodes := an.IsCallTo(x, fnGraphNodes); isNodes {
+				graphs = append(graphs, cc.Args[0])
+				continue
+			}
+			callee := x.Call.StaticCallee()
+			if callee == nil || depth == 0 || !inPkgs("pkg/scheduler")(callee) || callee.Blocks == nil {
+				return nil, false
+			}
+			inner, which, good := collectsAll(p, callee, depth-1)
+			if !good {
+				return nil, false
+			}
+			_ = inner
+			// map the callee's graph back to the argument
+			for _, g := range which {
+				mapped := false
+				for _, gr := range an.ResolveAll(g) {
+					for i, prm := range callee.Params {
+						if gr == ssa.Value(prm) && i < len(x.Call.Args) {
+							graphs = append(graphs, x.Call.Args[i])
+							mapped = true
+						}
+					}
+				}
+				if !mapped {
+					return nil, false
+				}
+			}
+		case *ssa.UnOp:
+			ap := an.AccessPath(x)
+			if ap.LastField() == "nodes" && len(ap.Fields) == 1 {
+				graphs = append(graphs, ap.Base)
+				continue
+			}
+			return nil, false
+		default:
+			return nil, false
+		}
+	}
+	return graphs, len(graphs) > 0
+}
+
+// collectsAll recognises a function that returns a slice holding every
+// element of all-nodes-of-a-graph: its only loop ranges over all nodes and
+// every iteration appends the loop's element to the slice that is returned.
+func collectsAll(p *an.Prog, fn *ssa.Function, depth int) (*an.Loop, []ssa.Value, bool) {
+	loops := an.Loops(fn)
+	if len(loops) != 1 {
+		return nil, nil, false
+	}
+	l := loops[0]
+	if l.RangeOperand() == nil {
+		return nil, nil, false
+	}
+	graphs, ok := allNodesOf(p, l.RangeOperand(), depth)
+	if !ok {
+		return nil, nil, false
+	}
+	_, elems := l.RangeKeyValue()
+	isElem := func(v ssa.Value) bool {
+		for _, e := range elems {
+			if an.SameValue(v, e) {
+				return true
+			}
+		}
+		return false
+	}
+	ex := &an.Explorer{P: p, NoReturn: noReturn}
+	l.Bound(ex)
+	ex.Effect = func(in ssa.Instruction, st *an.State) string {
+		call, ok := in.(*ssa.Call)
+		if !ok {
+			return ""
+		}
+		if b, ok := call.Call.Value.(*ssa.Builtin); ok && b.Name() == "append" {
+			for _, e := range an.VariadicElems(call.Call.Args[1]) {
+				if e != nil && isElem(e) {
+					return "append(elem)"
+				}
+			}
+		}
+		return ""
+	}
+	outs := ex.Run(fn, l.BodyEntry(), l.Header, nil)
+	if len(outs) == 0 {
+		return nil, nil, false
+	}
+	for _, o := range outs {
+		n := 0
+		for _, e := range o.Effects {
+			if e == "append(elem)" {
+				n++
+			}
+		}
+		if o.End != "stop" || o.StopBlock != l.Header || n != 1 {
+			return nil, nil, false
+		}
+	}
+	// what is returned is the appended slice
+	for _, ret := range an.Returns(fn) {
+		good := false
+		for _, s := range an.Sources(an.RetVal(ret, 0)) {
+			if call, ok := s.(*ssa.Call); ok {
+				if b, ok := call.Call.Value.(*ssa.Builtin); ok && b.Name() == "append" {
+					good = true
+				}
+			}
+			if _, ok := s.(*ssa.MakeSlice); ok {
+				good = true
+			}
+		}
+		if !good {
+			return nil, nil, false
+		}
+	}
+	return l, graphs, true
+}
